@@ -101,7 +101,7 @@ fn apply_f(v: &mut Vector<f64>, op: &str, t: &mut Toks, cx: &mut Ctx) -> String 
         "norm2" => outcome(&guarded(|| v.norm_2()).map(|x| x.wr())),
         "normp" => { let p: f64 = t.get(); outcome(&guarded(|| v.norm_p(p)).map(|x| x.wr())) }
         "norminf" => { let r = guarded(|| v.norm_inf()); if before.is_empty() { cx.check(r.is_err(), "norm_inf of an empty vector returned a value"); }
-                       else if let Ok(x) = &r { cx.check(*x == before.iter().map(|y| y.abs()).fold(0.0, f64::max), "norm_inf != max |x_i|"); } outcome(&r.map(|x| x.wr())) }
+                       else if let Ok(x) = &r { if before.iter().all(|y| !y.is_nan()) { cx.check(*x == before.iter().map(|y| y.abs()).fold(0.0, f64::max), "norm_inf != max |x_i|"); } } outcome(&r.map(|x| x.wr())) }
         "lsmul" => { let s: f64 = t.get(); let r = guarded(|| s * v.clone()); if let Ok(x) = &r { cx.check((0..before.len()).all(|i| x[i].to_bits() == (s * before[i]).to_bits() || x[i].is_nan()), "f64 * vector"); } outcome(&r.map(|x| { *v = x; String::new() })) }
         _ => apply(v, op, t, cx).unwrap_or_else(|| panic!("HARNESS: unknown vector op {}", op)),
     }
